@@ -140,6 +140,17 @@ def run_for(ck):
             else:
                 ck.drifted(f"CounterRA violates {r.violated} with the code's protocol {k} but the real code passes on that schedule")
             continue
+        # liveness under fairness (the backend keeps running and eventually reads the newest message): no state constraint, no export
+        lcfg = vlib.write_cfg(vlib.BUILD / "cfg" / f"CounterRA_{label}_live.cfg",
+                              cfg_text(k, maxlogs, False).replace("SPECIFICATION Spec", "SPECIFICATION FairSpec").replace("CONSTRAINT Bound\n", "")
+                              .replace("VIEW StateView\n", "") + "PROPERTY AllReported\n")
+        rl = vlib.tlc("CounterRA", lcfg, timeout=600)
+        if rl.error:
+            raise vlib.Infra(rl.error)
+        ck.add_tlc(rl, f"CounterRA {label} liveness")
+        if rl.violated:
+            ck.drifted(f"CounterRA {label}: liveness property AllReported fails in the model ({rl.violated}) although the safety invariants hold")
+        ck.extra.setdefault("liveness_checked", []).append(f"CounterRA {label}: AllReported under FairSpec: {'violated' if rl.violated else 'holds'}")
         if quick:
             for a in ("XLog", "BReset"):
                 if not vlib.enabled(r, a):
